@@ -130,6 +130,13 @@ def judge(run, cases, results):
         if not loaded:
             run.count(name, nontrivial=False, kind=kind + ":rejected")
             continue
+        for l in r["lines"]:
+            if l.startswith("dump ") and "tree_wf=" in l:
+                for kv in l.split()[3:]:
+                    k, v = kv.split("=")
+                    run.bump("hypothesis:%s=%s" % (k, v))
+                if "tree_wf=0" in l or "level_ok=0" in l:
+                    run.cov.setdefault("dumps_outside_hypotheses", []).append(name[:120])
         if not tree_ok:
             run.violation("tree-of-dump:" + kind, "the dump of %s does not rebuild into a tree (C01 territory)" % name, script_text(setup, []), no_input=True)
             continue
